@@ -15,6 +15,8 @@ type c15B struct {
 	reg  []int
 	name string
 	ow   float64 // real-call histories: probability that a call is one-way
+	hp   float64 // probability that a call written as plain is hashed instead
+	hk   int     // its kind: 1 mod-hash, 2 consistent-hash, 0 either
 }
 
 func (b *c15B) adv(d int64)          { b.ops = append(b.ops, c15Op{K: "adv", D: d}) }
@@ -32,6 +34,16 @@ func (b *c15B) refreshI(l, in []int) {
 	}
 }
 func (b *c15B) call(h int, c uint32, d bool) {
+	if h == 0 && b.hp > 0 && b.coin(b.hp) {
+		h = b.hk
+		if h == 0 {
+			h = 1 + b.rng.Intn(2)
+		}
+		c = uint32(b.rng.Intn(12))
+		if b.coin(0.3) {
+			c = b.rng.Uint32()
+		}
+	}
 	b.ops = append(b.ops, c15Op{K: "call", Hash: h, Code: c, Defer: d, OneWay: b.ow > 0 && b.coin(b.ow)})
 }
 func (b *c15B) outs(e, n int, ok bool) {
@@ -242,6 +254,14 @@ func (b *c15B) segRandom() {
 
 func c15GenOne(rng *rand.Rand) c15Case {
 	b := &c15B{rng: rng}
+	switch rng.Intn(8) { // routing of the calls the segments write as plain: as written / all hashed / half hashed
+	case 0:
+		b.hp, b.hk = 1, 1+rng.Intn(2)
+		b.name = "hashed-only "
+	case 1:
+		b.hp, b.hk = 0.5, 0
+		b.name = "mixed-hash "
+	}
 	n := 1 + rng.Intn(4)
 	perm := rng.Perm(c15Universe)
 	b.refresh(perm[:n])
@@ -426,6 +446,41 @@ func c15Corpus() []c15Case {
 				b.check()
 			})
 		}
+	}
+	// hashed traffic only around the probe steps: the due probe is carried by the next call of any routing kind
+	for _, kind := range []int{1, 2} {
+		kind := kind
+		mk(fmt.Sprintf("hashed-only-probe(kind=%d)", kind), func(b *c15B) {
+			b.hp, b.hk = 1, kind
+			b.refresh([]int{0, 2, 4})
+			for i := 0; i < 12; i++ {
+				b.call(0, 0, false)
+			}
+			b.outs(2, 5, false)
+			b.adv(5)
+			b.check()
+			for i := 0; i < 4; i++ {
+				b.call(0, 0, false)
+			}
+			b.adv(30)
+			b.check()
+			b.call(0, 0, false) // hashed: carries the probe, answered, reinstated
+			b.call(0, 0, false)
+			b.check()
+			b.outs(2, 5, false)
+			b.adv(5)
+			b.check()
+			b.adv(30)
+			b.check()
+			b.up(2, false)
+			b.call(0, 0, false) // hashed probe, fails: stays blocked, can be requested again
+			b.adv(30)
+			b.check()
+			b.up(2, true)
+			b.call(0, 0, true)
+			b.reinst()
+			b.check()
+		})
 	}
 	// the registry moves a blocked endpoint to its inactive list and back (and a healthy one): the health record
 	// survives, re-entry only after an answered probe
